@@ -97,6 +97,7 @@ def check_c01_c05(prop, tier, seed):
     check_index_array_ownership(b, rng, prop)
     if not inplace:
         check_mask_ownership(b, rng, prop)
+        check_detached_twin(b, rng, prop)
     return b
 
 
@@ -153,6 +154,40 @@ def check_index_array_ownership(b, rng, prop):
             if not ok:
                 b.fail(f"{prop}.bounded.index_object_aliased", desc, f"x.grad = {None if x0.grad is None else x0.grad.tolist()}, expected {exp_x.tolist()}" + ("" if exp_y is None else f"; y.grad = {None if yv.grad is None else yv.grad.tolist()}, expected {exp_y.tolist()}"))
             b.case(desc)
+
+
+def check_detached_twin(b, rng, prop):
+    """A variable x and a DETACHED constant twin of it that wraps the very same array object (mg.astensor(x, constant=True),
+    mg.tensor(x, constant=True, copy=False), Tensor(x.data, constant=True, copy=False)) fed to one operation: the twin is a constant like any
+    other -- the gradients equal those of the same call with an independent constant copy of the values, in either operand order."""
+    twins = [("astensor(x, constant=True)", lambda x: mg.astensor(x, constant=True)), ("tensor(x, constant=True, copy=False)", lambda x: mg.tensor(x, constant=True, copy=False)),
+             ("Tensor(x.data, constant=True, copy=False)", lambda x: mg.Tensor(x.data, constant=True, copy=False))]
+    ops = [
+        ("einsum i,i->", lambda p, q: mg.einsum("i,i->", p, q)), ("einsum i,i->i", lambda p, q: mg.einsum("i,i->i", p, q)), ("einsum i,j->ij", lambda p, q: mg.einsum("i,j->ij", p, q)),
+        ("einsum i,i,i->", lambda p, q: mg.einsum("i,i,i->", p, q, p)), ("multiply", lambda p, q: p * q), ("matmul", lambda p, q: mg.matmul(p, q)), ("add", lambda p, q: p + q), ("maximum", lambda p, q: mg.maximum(p, q * 0.5)),
+        ("stack", lambda p, q: mg.stack((p, q))), ("concatenate", lambda p, q: mg.concatenate((p, q))), ("where", lambda p, q: mg.where(np.array([True, False, True]), p, q)), ("power", lambda p, q: p ** q),
+    ]
+    for tn, tf in twins:
+        for on, of in ops:
+            for order in ("x first", "twin first"):
+                xv = rng.uniform(1, 2, size=(3,))
+                w = np.array([1.0, 10.0, 100.0])
+                desc = dict(family="variable and its detached constant twin sharing one array", twin=tn, op=on, order=order)
+                b.count("detached twin behaves like an independent constant")
+                grads = []
+                try:
+                    for shared in (True, False):
+                        x = mg.tensor(xv.copy())
+                        c = tf(x) if shared else mg.tensor(xv.copy(), constant=True)
+                        out = of(x, c) if order == "x first" else of(c, x)
+                        (out * (w if out.ndim == 1 and out.shape == (3,) else 1.0)).sum().backward()
+                        grads.append(None if x.grad is None else x.grad.copy())
+                except Exception as e:
+                    b.fail(f"{prop}.bounded.detached_twin", desc, f"{type(e).__name__}: {e}")
+                    continue
+                if (grads[0] is None) != (grads[1] is None) or (grads[0] is not None and not np.allclose(grads[0], grads[1], rtol=1e-12, atol=0)):
+                    b.fail(f"{prop}.bounded.detached_twin", desc, f"x.grad = {None if grads[0] is None else grads[0].tolist()} with the twin, {None if grads[1] is None else grads[1].tolist()} with an independent constant of the same values")
+                b.case(desc)
 
 
 def check_mask_ownership(b, rng, prop):
@@ -544,6 +579,56 @@ def check_c04_histories(tier, seed):
                                     b.fail("C04.histories.shape_mirror", dict(history=desc), bad)
                                 b.case(desc)
 
+    # ---- owners whose memory is AXIS-PERMUTED (neither C- nor Fortran-ordered: x = swapaxes(a, 0, 1) * 2 for a 3-d a), views that are views only
+    # because of that layout (swap back, then reshape), and an in-place update of any member: the family mirrors NumPy before and after
+    def permuted_family(xp, a3):
+        bb = (xp.swapaxes(a3, 0, 1) * 2.0) if xp is np else mg.swapaxes(mg.tensor(a3), 0, 1) * 2.0
+        s_ = bb.swapaxes(0, 1)
+        r_ = s_.reshape(6, 4)
+        n_ = r_[:, None, ::2]
+        t_ = bb.transpose(2, 0, 1)
+        return [bb, s_, r_, n_, t_]
+
+    pupdates = [("r[0] = row", lambda fam: fam[2].__setitem__(0, np.arange(4.0))), ("r += 1", lambda fam: fam[2].__iadd__(1.0)), ("n[...] = c", lambda fam: fam[3].__setitem__(Ellipsis, 0.5)),
+                ("b *= 2", lambda fam: fam[0].__imul__(2.0)), ("s *= 2", lambda fam: fam[1].__imul__(2.0)), ("t[0] = c", lambda fam: fam[4].__setitem__(0, 7.0)), ("b[0, 1] = row", lambda fam: fam[0].__setitem__((0, 1), np.arange(4.0)))]
+    for u1, f1 in pupdates:
+        for u2, f2 in [("-", None)] + pupdates[:4]:
+            a3 = rng.uniform(-2, 2, size=(2, 3, 4))
+            desc = dict(family="axis-permuted 3-d owner", updates=[u1, u2])
+            try:
+                ref = permuted_family(np, a3.copy())
+                f1(ref)
+                if f2:
+                    f2(ref)
+            except Exception:
+                continue
+            b.count("family mirror")
+            try:
+                got = permuted_family(mg, a3.copy())
+                f1(got)
+                if f2:
+                    f2(got)
+            except Exception as e:
+                b.fail("C04.histories.raises", desc, f"MyGrad raises {type(e).__name__}: {e} where NumPy accepts")
+                b.case(desc)
+                continue
+            bad = None
+            for n_i, (t, r) in enumerate(zip(got, ref)):
+                if t.shape != r.shape or not np.array_equal(t.data, r):
+                    bad = f"member {n_i} holds {t.data.ravel()[:6].tolist()}..., NumPy's {r.ravel()[:6].tolist()}..."
+                    break
+                if n_i > 0 and np.shares_memory(r, ref[0]) and t.base is not got[0]:
+                    bad = f"member {n_i}.base is not the family owner"
+                    break
+            if bad is None:
+                for p_, q_ in itertools.combinations(range(len(got)), 2):
+                    if np.shares_memory(got[p_].data, got[q_].data) != np.shares_memory(ref[p_], ref[q_]):
+                        bad = f"shares_memory({p_},{q_}) differs from NumPy"
+                        break
+            if bad:
+                b.fail("C04.histories.mirror", desc, bad)
+            b.case(desc)
+
     # ---- which results are views: every shape-manipulation routine x every source layout, in the function / method / NumPy-on-tensor spelling -----
     # source = a slicing pattern of a (3,4) owner of either memory order; result = routine(source).  Mirror on NumPy: the result shares memory
     # with the owner exactly when NumPy's does, `.base` is the owner then and None otherwise; after an in-place update of the owner, and after one
@@ -900,6 +985,42 @@ def check_c06(tier, seed):
             if np.shares_memory(tp.grad, tq.grad) and not np.shares_memory(tp.data, tq.data):
                 b.fail("C06.bounded.noalias", dict(program=name, pair=[p, q]), "gradients of tensors with distinct memory share memory")
         b.case(dict(program=name, contract="noalias"))
+    # the base's FIRST gradient contribution comes from an op whose VJP hands back a view of a temporary it allocated (matmul w.r.t. a 1-d operand,
+    # einsum, roll, cumsum, repeat, max along an axis, conv filters), the base also has views inside the graph, in both orders of the summands
+    A_ = rng.uniform(1, 2, size=(2, 3))
+    direct_ops = [
+        ("matmul-1d", lambda bb: mg.matmul(A_, bb)), ("einsum", lambda bb: mg.einsum("ij,j->i", A_, bb)), ("roll", lambda bb: mg.roll(bb, 1)), ("cumsum", lambda bb: mg.cumsum(bb)),
+        ("repeat", lambda bb: mg.repeat(bb, 2)), ("max-axis", lambda bb: mg.max(mg.stack((bb, bb * 0.5)), axis=0)), ("multiply", lambda bb: bb * 3.0), ("sum-of-squares", lambda bb: bb * bb),
+        ("cumprod", lambda bb: mg.cumprod(bb)), ("tensordot-like einsum", lambda bb: mg.einsum("i,i->", bb, bb)),
+    ]
+    in_graph_views = [("reshape", lambda t: t.reshape(3, 1)), ("[::-1]", lambda t: t[::-1]), ("[None]", lambda t: t[None]), ("reshape.T", lambda t: t.reshape(1, 3).T)]
+    for dn, df in direct_ops:
+        for vn, vf in in_graph_views:
+            for order in ("view-term first", "direct-term first"):
+                a0 = mg.tensor(rng.uniform(1, 2, size=(3,)))
+                bb = a0 * 1.0
+                v = vf(bb)
+                t_view, t_direct = (v * 2.0).sum(), df(bb).sum()
+                L = (t_view + t_direct) if order.startswith("view") else (t_direct + t_view)
+                desc = dict(family="first contribution is a view of a temporary", direct_consumer=dn, view=vn, order=order)
+                b.count("view gradient available whatever op contributed first")
+                try:
+                    L.backward()
+                    vg, bg = v.grad, bb.grad
+                except Exception as e:
+                    b.fail("C06.bounded.raises", desc, f"{type(e).__name__}: {e}")
+                    continue
+                if bg is None:
+                    b.fail("C06.bounded.raises", desc, "base has no gradient")
+                elif vg is None:
+                    b.fail("C06.bounded.view_grad_unavailable", desc, "view.grad is None although base.grad is available")
+                elif not np.array_equal(vg, vf(bg)):
+                    b.fail("C06.bounded.view_grad_value", desc, "view.grad differs from the view of base.grad")
+                elif not np.shares_memory(vg, bg):
+                    b.fail("C06.bounded.view_grad_not_shared", desc, "view.grad does not share memory with base.grad")
+                elif bg.base is not None:
+                    b.fail("C06.bounded.base_grad_not_owner", desc, "the base's gradient does not own its memory (it is a window onto a temporary)")
+                b.case(desc)
     # successive backward passes on the base itself, seeded with DIFFERENT windows of one buffer (the seed is kept as it is when dtype, shape and
     # layout match -- known finding F6 -- so the base's gradient does not own its memory): a side view's gradient follows the base's CURRENT one
     side_views = [("[1:3]", lambda t: t[1:3]), ("[::-1]", lambda t: t[::-1]), ("reshape", lambda t: t.reshape(2, 2)), ("[1:][:2]", lambda t: t[1:][:2]), ("[...]", lambda t: t[...])]
@@ -1117,6 +1238,40 @@ def check_c07(tier, seed):
                 b.fail("C07.bounded.inplace_on_view_of_grad_holder_value", desc, f"leaf = {w.data.tolist()}, NumPy twin = {ref.tolist()}")
             elif w.grad is not None or v.grad is not None:
                 b.fail("C07.bounded.stale", desc, "the leaf or its view still reports the old gradient after the in-place update")
+            b.case(desc)
+    # a training loop that keeps VIEWS of its leaves across iterations: views of the parameters made once (W = params[:6].reshape(2, 3)), used in
+    # every iteration through further view ops and non-view ops, optionally updated in place inside no_autodiff between iterations -- every
+    # iteration yields the same gradients on the leaf, the persistent view and the per-iteration view (bit-identical, never None on one iteration)
+    first_uses = [("view op", lambda W: W[:1]), ("view-of-view", lambda W: W.T[1:]), ("non-view op", lambda W: W * 1.0), ("reshape", lambda W: W.reshape(-1))]
+    for fn_, ff_ in first_uses:
+        for update in (False, True):
+            params = mg.tensor(np.arange(1.0, 9.0))
+            W = params[:6].reshape(2, 3)
+            seen = []
+            desc = dict(family="persistent views across iterations", first_use_of_the_view=fn_, in_place_update_between_iterations=update)
+            b.count("iterations repeat exactly")
+            try:
+                for it in range(4):
+                    R = ff_(W)
+                    L = (R * R).sum() + (W * 2.0).sum()
+                    L.backward()
+                    seen.append((None if params.grad is None else params.grad.copy(), None if W.grad is None else W.grad.copy(), None if R.grad is None else np.array(R.grad, copy=True), R.base is params or R.base is None))
+                    if update:
+                        with mg.no_autodiff:
+                            params[...] = params.data  # an update that keeps the values: the next iteration computes the same thing
+            except Exception as e:
+                b.fail("C07.bounded.iterations_raise", desc, f"{type(e).__name__}: {e}")
+                continue
+            bad = None
+            for it, cur in enumerate(seen[1:], start=1):
+                for nm_, a_, c_ in zip(("leaf.grad", "persistent view.grad", "per-iteration tensor.grad"), seen[0][:3], cur[:3]):
+                    if (a_ is None) != (c_ is None) or (a_ is not None and not np.array_equal(a_, c_)):
+                        bad = f"iteration {it}: {nm_} = {None if c_ is None else np.asarray(c_).tolist()}, iteration 0 gave {None if a_ is None else np.asarray(a_).tolist()}"
+                        break
+                if bad:
+                    break
+            if bad:
+                b.fail("C07.bounded.iterations_differ", desc, bad)
             b.case(desc)
     # assigning .shape is an in-place update too (C04): on a tensor that still holds a gradient -- a leaf, a view of one, a tensor whose view
     # was back-propagated through, with or without views taken after the backward pass -- it works as on NumPy arrays, and the old gradient
